@@ -228,8 +228,13 @@ def gen_cases(rng, tier):
 
 
 # ---- the implementation side -------------------------------------------------------------------------------------------
+def jnum(x):
+  """A number as json.load would deliver it: integral values are Python ints (exports write 2, not 2.0), others floats."""
+  return int(x) if F(x).denominator == 1 else float(x)
+
+
 def py_run(basis, runs):
-  return {'basis': basis, 'runs': {str(k): ([float(x) for x in v] if isinstance(v, tuple) else float(v)) for k, v in runs}}
+  return {'basis': basis, 'runs': {str(k): ([jnum(x) for x in v] if isinstance(v, tuple) else jnum(v)) for k, v in runs}}
 
 
 def py_device(basis, d):
